@@ -1410,6 +1410,9 @@ func (vm *VM) run() (Addr, bool) {
 					var u reflect.Value
 					var ok bool
 					for {
+						if verifEnabled {
+							verifRangeRecv(vm, v)
+						}
 						if done == nil {
 							u, ok = v.Recv()
 						} else {
